@@ -406,7 +406,7 @@ QUICK_CANARIES = True
 CLAIM = {
     "text": "Decided for all metafiles: every file-system-mutating primitive reachable from rebuild is enumerated and each written path that depends on decoded metafile content is "
             "shown to be the output of a containment sanitiser whose definition is itself verified on the CFG (normalised root and joined path, comparison by commonpath, failing branch raises, "
-            "returns the tested path). An unsanitised flow at any sink, or a weakened sanitiser, is a violation naming the sink. A bare call of the (CFG-verified, raw-argument) containment check that dominates the join of the very same arguments is accepted as sanitising that join.",
+            "returns the tested path). An unsanitised flow at any sink, or a weakened sanitiser, is a violation naming the sink. A bare call of the (CFG-verified, raw-argument) containment check that dominates the join of the very same arguments is accepted as sanitising that join. The path written must be the path checked: a text-rewriting operation (replace, strip, translate, expanduser, expandvars, re.sub, unquote ...) applied to the result of the containment check before the sink is a violation.",
     "note": "Trusted: realpath resolves '..' and symlinks, commonpath compares whole components. Explicit data flow only; the destination argument itself is the user's. "
             "Time-of-check/time-of-use races with concurrently created symlinks are outside the property.",
     "technique": "taint analysis on origin terms with a mandatory, CFG-verified sanitiser; sinks from effect summaries over the call graph",
